@@ -211,6 +211,19 @@ def parse_kernels(line):
     return out
 
 
+def compare_kernel_ids(py, model, scale):
+    """multiset comparison of which partonic-channel objects are built (weights ignored, except that
+    kernels dropped for having only zero weights are ignored on both sides)"""
+    def nz(ws):
+        return any(abs(float(w)) > 1e-13 * scale for w in ws)
+
+    a = sorted(k for k, w in py if nz(w))
+    b = sorted(k for k, w in model if nz(w))
+    if a != b:
+        return False, dict(py=a, model=b)
+    return True, None
+
+
 def compare_kernel_lists(py, model, scale):
     """multiset comparison; kernels whose weights are all (numerically) zero are ignored on both sides
     (that is what `drop_empty` does, up to rounding)."""
@@ -285,7 +298,7 @@ def empty_classes(esf):
     return _empty_cache[key]
 
 
-def run_combiner(chk, n_cfg, r, stream="combiner", **kw):
+def run_combiner(chk, n_cfg, r, stream="combiner", mode="full", **kw):
     import yadism
     from yadism.coefficient_functions import Combiner
 
@@ -320,6 +333,45 @@ def run_combiner(chk, n_cfg, r, stream="combiner", **kw):
         # `drop_empty` removes kernels whose class derives from EmptyPartonicChannel: the class
         # table is read from the real modules, the model only says which class is asked for
         model = [(k, w) for k, w in parse_kernels(lines[idx]) if (k[0], k[1]) not in empties]
-        ok, det = compare_kernel_lists(py, model, sc)
+        ok, det = (compare_kernel_lists if mode == "full" else compare_kernel_ids)(py, model, sc)
         sample2 = dict(sample, kernels=[list(k) for k, _ in py][:12])
         chk.corr_case(stream, ok, sample2, None if ok else dict(sample=sample, diff=det), feat)
+
+
+def run_isospin(chk, n_cfg, r, stream="apply_isospin"):
+    """`Combiner.apply_isospin` on the real pre-isospin kernels vs the model's `isospin` on the same weights"""
+    import copy
+
+    import yadism
+    from yadism.coefficient_functions import Combiner
+
+    drv = Driver()
+    pending = []
+    for t, o in combiner_configs(r, n_cfg):
+        try:
+            runner = yadism.Runner(t, o)
+        except Exception:
+            continue
+        for name, obj in runner.observables.items():
+            for esf in obj.elements[:1]:
+                comb = Combiner(esf)
+                try:
+                    full = [k for comp in comb.collect() for k in comp]
+                except Exception:
+                    continue
+                before = [[float(k.partons.get(p, 0.0)) for p in BASIS] for k in full]
+                Z, A = float(comb.target["Z"]), float(comb.target["A"])
+                Combiner.apply_isospin(full, Z, A)
+                after = [[float(k.partons.get(p, 0.0)) for p in BASIS] for k in full]
+                shared = len({id(k.partons) for k in full}) < len(full)
+                for b, a in list(zip(before, after))[:6]:
+                    idx = drv.add(f"isospin {q(Z)} {q(A)} " + " ".join(q(v) for v in b))
+                    pending.append((idx, a, dict(obs=name, Z=Z, A=A, before=b, after=a, FNS=t["FNS"], pto_evol=t["PTO"]), f"{'ud' if b[BASIS.index(1)] != b[BASIS.index(2)] else 'sym'}/{'Z=A' if Z == A else 'nucl'}"))
+    lines = drv.run()
+    for idx, after, sample, feat in pending:
+        if lines[idx] == "bad-op":
+            chk.corr_case(stream, False, sample, dict(sample=sample, model="bad-op"), feat)
+            continue
+        m = [float(unq(t)) for t in lines[idx].split()]
+        ok = all(abs(a - b) <= 1e-12 * max(1.0, abs(b)) for a, b in zip(after, m))
+        chk.corr_case(stream, ok, sample, None if ok else dict(sample=sample, model=m), feat)
